@@ -1,5 +1,5 @@
-"""wire engine (property C18): the REAL DevInputWriter::send / DevInputReader::next
-driven over pipes by `tm-harness wire`, compared with the extracted Coq model
+"""wire engine (property C18; the switch-reader cases serve property C12): the REAL
+DevInputWriter::send / DevInputReader::next / TabletModeSwitchReader::next driven over pipes by `tm-harness wire`, compared with the extracted Coq model
 (coq/theories/Wire.v) and judged by the extracted specification checkers
 (coq/theories/WireSpec.v) in ocaml/wire_check.ml.
 
@@ -9,7 +9,10 @@ Observation classes of differences model vs implementation:
   READ        the events the reader returns on a byte stream differ
   READ_SHORT  ... on a stream that is not a whole number of 24-byte records (an evdev
               node never delivers one; not observed by C18)
-Checker clauses on the real outputs: C18.length, C18.record, C18.syn (writer),
+  TABLET      the On/Off events the REAL TabletModeSwitchReader::next returns on a byte
+              stream differ from the extracted TabletWire.decode_tablet_run (property C12)
+Checker clauses on the real outputs: C12.switch_reader (the switch reader's answer is not
+TabletWire.tablet_events_of of the records fed, or a call panicked), C18.length, C18.record, C18.syn (writer),
 C18.roundtrip (reader on the writer's bytes), C18.reader (reader on records
 laid out by libc::input_event with foreign records interleaved).
 
@@ -27,6 +30,7 @@ EXPECTED_FACTS = {"size": "24", "off_time": "0", "off_usec": "8", "off_type": "1
 
 def parse_out(text):
     diffs, hits, summary, samples, facts, table, afails = [], [], {}, [], None, {}, []
+    grid = {}
     for line in text.split("\n"):
         if line.startswith("DIFF "):
             m = re.match(r"DIFF class=(\w+) kind=(\w) input=(.*?) impl=(.*?) model=(.*)$", line)
@@ -47,8 +51,11 @@ def parse_out(text):
             facts = dict(re.findall(r"(\w+)=(\S+)", line))
         elif line.startswith("TABLE "):
             table = dict(re.findall(r"(\w+)=(\S+)", line))
+        elif line.startswith("TABLETGRID "):
+            grid = dict(re.findall(r"(\w+)=(\S+)", line))
         elif line.startswith("ASSUMPTION-FAIL"):
             afails.append(line[:400])
+    table["tablet_grid"] = grid
     return diffs, hits, summary, samples, facts, table, afails
 
 
@@ -67,9 +74,9 @@ def shrink(ctx, work, item, want_key):
     shows the same clause / difference class"""
     inp = item["input"]
     toks = inp["case"].split()
-    if len(toks) <= 1 or inp["kind"] not in ("R", "W") or inp["case"].startswith("bytes:") or inp["case"].endswith("..."):
+    if len(toks) <= 1 or inp["kind"] not in ("R", "W", "T") or inp["case"].startswith("bytes:") or inp["case"].endswith("..."):
         return item
-    flag = "--split-records" if inp["kind"] == "R" else "--split-batch"
+    flag = {"R": "--split-records", "T": "--split-tablet-records"}.get(inp["kind"], "--split-batch")
     f = os.path.join(work, "split.txt")
     rc, out, _ = ctx["sh"]([ctx["harness"], "wire", "--out", f, flag, inp["case"]], timeout=300)
     if rc != 0:
@@ -80,7 +87,7 @@ def shrink(ctx, work, item, want_key):
     diffs, hits, _, _, _, _, _ = parse_out(out)
     for cand in (hits if "clause" in item else diffs):
         if cand.get(want_key) == item.get(want_key):
-            cand["note"] = "shrunk from a case of %d %s" % (len(toks), "records" if inp["kind"] == "R" else "events")
+            cand["note"] = "shrunk from a case of %d %s" % (len(toks), "records" if inp["kind"] in ("R", "T") else "events")
             return cand
     return item
 
@@ -91,6 +98,7 @@ def run(ctx):
     key = ctx["tree_hash"]([os.path.join(ctx["repo"], "src"), os.path.join(ctx["repo"], "Cargo.toml"),
                             os.path.join(here, "harness", "src"), os.path.join(here, "ocaml", "wire_check.ml"),
                             os.path.join(here, "coq", "theories", "Wire.v"), os.path.join(here, "coq", "theories", "WireSpec.v"),
+                            os.path.join(here, "coq", "theories", "TabletWire.v"),
                             os.path.join(here, "coq", "theories", "SpecKernelKeys.v"), os.path.join(here, "coq", "theories", "Base.v"),
                             os.path.join(here, "coq", "theories", "Mapper.v"),
                             os.path.join(here, "coq", "gen", "KeyTable.v"), os.path.join(here, "coq", "extract", "Extract_wire.v"),
@@ -133,6 +141,8 @@ def run(ctx):
             res["error"] = "extracted key-table check failed (codes_fit_u16 / codes_match_kernel / codes_distinct): %s" % table
         elif table.get("singles_missing") != "0" or table.get("singles_outside_table") != "0":
             res["error"] = "the key codes the real FromPrimitive knows are not the regenerated KeyTable: %s" % table
+        elif table.get("tablet_grid", {}).get("missing") != "0":
+            res["error"] = "the switch reader's (type, code, value) grid was not fed exhaustively as single records: %s" % table.get("tablet_grid")
         # one representative per clause / class, shrunk
         seen, out_hits = set(), []
         for h in hits:
@@ -156,6 +166,12 @@ def run(ctx):
             "write_cases": summary.get("write", 0),
             "read_cases": summary.get("read", 0),
             "raw_stream_cases": summary.get("raw", 0),
+            "switch_reader_cases": summary.get("tablet", 0),
+            "switch_reader_raw_stream_cases": summary.get("tablet_raw", 0),
+            "switch_records_read": summary.get("tablet_records", 0),
+            "switch_events_returned": summary.get("tablet_events", 0),
+            "switch_records_skipped": summary.get("tablet_skipped", 0),
+            "switch_grid_single_records": int(table.get("tablet_grid", {}).get("singles", "0")),
             "events_written": summary.get("events_written", 0),
             "records_read": summary.get("records_read", 0),
             "events_returned_by_reader": summary.get("events_returned", 0),
@@ -172,8 +188,10 @@ def run(ctx):
                 "write": "empty batch; every known key x {press, release} alone; all keys in one batch; seeded random batches, length 0..40 (5% 41..200/400), keys uniform / codes<128 / codes>=256 / mixed",
                 "read": "every code 0..0x2ff (quick) or 0..0xffff (thorough) x value {0,1,2} as EV_KEY with random timestamps; seeded mixtures of key events, EV_SYN, EV_MSC, value 2, unknown codes (0, 600, 0xffff, ...), values -1, 256, 0x01000000, i32::MIN/MAX, types 0x0101/0x0100, random records; writer-shaped batches with foreign records interleaved",
                 "raw": "random bytes and truncated record streams (model correspondence only)",
+                "switch_reader": "the real TabletModeSwitchReader on a pipe: the empty stream; every (type in {0,1,2,3,4,5,0x11,0x14,0xffff}, code in {0,1,2,5,0xffff}, value in {-1,0,1,2,i32::MIN,i32::MAX}) as a single record with zero and with random timestamp (exhaustive, verified by the checker), the whole grid in one stream in order and shuffled, every grid record between two writer key records; seeded mixtures of On/Off, SYN_REPORT, other switches, other values, 5/1 in one byte of type/code only, the writer's own key records (incl. KEY_ESC = code 1), random records; writer-shaped batches with switch records spliced in; streams cut 1..23 bytes before the end of an On/Off record and garbage",
             },
-            "samples": samples[:6],
+            # one switch-reader sample first (C12 shows the first ones after the loop engine's), then the others
+            "samples": ([x for x in samples if x.startswith("switch ")][:1] + [x for x in samples if not x.startswith("switch ")])[:6],
         }
         res["wall_s"] = round(time.time() - t0, 1)
         shutil.rmtree(work, ignore_errors=True)
@@ -196,7 +214,11 @@ def replay(ctx, rp):
     if inp.get("kind") == "K":
         print("key table entry %s: observed=%s expected=%s (coq/gen/KeyTable.v vs coq/theories/SpecKernelKeys.v)" % (case, rp.get("observed"), rp.get("expected")))
         return 0
-    if case.startswith("bytes:"):
+    if inp.get("kind") == "T":
+        args = ["--tablet-records", case]
+    elif inp.get("kind") == "Y" and case.startswith("bytes:"):
+        args = ["--tablet-bytes", case[6:]]
+    elif case.startswith("bytes:"):
         args = ["--bytes", case[6:]]
     elif inp.get("kind") == "R":
         args = ["--records", case]
